@@ -412,4 +412,95 @@ theorem runLoop_flat (cl : Nat → Nat) (fuel : Nat) (s : PState) (rd : Rd)
             omega
           rw [ih _ rd1 hR2 hlen, h2]
 
+
+/-! ### whole streams -/
+
+theorem runLoop_table_congr (T U : Table) (h : ∀ s i, step T s i = step U s i) (cl : Nat → Nat) (fuel : Nat)
+    (s : PState) (rd : Rd) : runLoop T cl fuel s rd = runLoop U cl fuel s rd := by
+  induction fuel generalizing s rd with
+  | zero => rfl
+  | succ n ih => simp only [runLoop, h, ih]
+
+theorem runRunes_table_congr (T U : Table) (h : ∀ s i, step T s i = step U s i) (s : PState) (w : List Nat) :
+    runRunes T s w = runRunes U s w := by
+  induction w generalizing s with
+  | nil => simp only [runRunes, h]
+  | cons r w ih => simp only [runRunes, h, ih]
+
+theorem flatten_filter_nonempty (chunks : List (List Nat)) :
+    (chunks.filter (!·.isEmpty)).flatten = chunks.flatten := by
+  induction chunks with
+  | nil => rfl
+  | cons c cs ih =>
+    cases c with
+    | nil => simpa [List.filter] using ih
+    | cons b r => simp [List.filter, ih]
+
+/-- `runChunks`, any reads, any respectful oracle: the automaton over the decoded stream. -/
+theorem runChunks_flat (cl : Nat → Nat) (chunks : List (List Nat))
+    (hR : Respects cl 0 (units chunks.flatten)) :
+    flat (runChunks handTable cl chunks) = runRunes handTable PState.init (decodeRunes chunks.flatten) := by
+  unfold runChunks
+  have hb : bytesOf { buf := [], chunks := chunks.filter (!·.isEmpty) } = chunks.flatten := by
+    simp [bytesOf, flatten_filter_nonempty]
+  have := runLoop_flat cl (({ buf := [], chunks := chunks.filter (!·.isEmpty) } : Rd).remaining + 2) PState.init
+    { buf := [], chunks := chunks.filter (!·.isEmpty) } (by rw [hb]; exact hR) (by rw [remaining_eq]; omega)
+  rw [this, hb]
+  rfl
+
+/-- The oracle that never joins anything respects every stream. -/
+theorem respects_const_one (pos : Nat) (us : List U) : Respects (fun _ => 1) pos us := by
+  induction us generalizing pos with
+  | nil => trivial
+  | cons u us ih => exact ⟨by show 1 ≤ 1 + absRun us; omega, ih _⟩
+
+theorem unit1_raw_ge (b : Nat) (t : List Nat) (hb : 0x20 ≤ b) : 0x20 ≤ (unit1 (b :: t)).raw := by
+  by_cases hv : (decodeRune (b :: t)).1 = runeError ∧ (decodeRune (b :: t)).2 = 1
+  · have : unit1 (b :: t) = ⟨b, true, 1⟩ := by simp [unit1, hv]
+    rw [this]; exact hb
+  · obtain ⟨_, h2⟩ := decodeRune_valid b t hv
+    have hu : unit1 (b :: t) = ⟨(decodeRune (b :: t)).1, false, (decodeRune (b :: t)).2⟩ := by
+      simp only [unit1, hv, if_false]
+    rw [hu]
+    show 0x20 ≤ (decodeRune (b :: t)).1
+    have hsz := decodeRune_sz b t
+    rcases Nat.lt_or_ge (decodeRune (b :: t)).1 0x20 with hlt | hge
+    · exfalso
+      have he : encodeRune (decodeRune (b :: t)).1 = [(decodeRune (b :: t)).1] := by
+        unfold encodeRune
+        rw [if_pos (by omega)]
+      rw [he] at h2
+      obtain ⟨k, hk⟩ : ∃ k, (decodeRune (b :: t)).2 = k + 1 := ⟨(decodeRune (b :: t)).2 - 1, by omega⟩
+      rw [hk, List.take_succ_cons] at h2
+      have h3 := (List.cons.inj h2).1
+      rw [h3] at hlt
+      omega
+    · exact hge
+
+theorem units_raw_ge (bs : List Nat) (h : ∀ b ∈ bs, 0x20 ≤ b) : ∀ u ∈ units bs, 0x20 ≤ u.raw := by
+  induction hn : bs.length using Nat.strongRecOn generalizing bs with
+  | _ n ih =>
+    cases bs with
+    | nil => simp
+    | cons b t =>
+      have hs := unit1_sz b t
+      rw [units_cons]
+      have hlen : ((b :: t).drop (unit1 (b :: t)).sz).length < n := by
+        rw [← hn]; simp only [List.length_drop, List.length_cons]; omega
+      have i := ih _ hlen _ (fun x hx => h x (List.mem_of_mem_drop hx)) rfl
+      intro u hu
+      rcases List.mem_cons.mp hu with rfl | hu
+      · exact unit1_raw_ge b t (h b (by simp))
+      · exact i u hu
+
+/-- The automaton on text from ground: one Print per rune, then `EOF{}`. -/
+theorem runRunes_text (s : PState) (hs : s.state = .ground) (he : s.exit = none) (w : List Nat)
+    (hw : ∀ r ∈ w, 0x20 ≤ r) : runRunes handTable s w = w.map .print ++ [.eof] := by
+  have := runRunes_ground_text s hs w [] hw
+  rw [List.append_nil] at this
+  rw [this]
+  have hq := pstep_eof_quiet s he
+  simp only [pstep] at hq
+  simp [runRunes, hq]
+
 end VaxisModel.Lemmas.ParserRead
